@@ -398,7 +398,7 @@ def lammps_frame(lattice):
     return Ll, np.linalg.inv(L) @ Ll
 
 
-def emit_output(calc, name, cell, forces, supercell_lattice=None):
+def emit_output(calc, name, cell, forces, supercell_lattice=None, row_order=None):
     """cell: the cell as the calculator sees it (read back from the written file);
     forces: (n,3) in file order.  Returns the name to pass to create_FORCE_SETS."""
     import phonopy.units as pu
@@ -494,8 +494,9 @@ def emit_output(calc, name, cell, forces, supercell_lattice=None):
         pl = np.asarray(cell.scaled_positions) @ Ll
         L = ["ITEM: TIMESTEP", "0", "ITEM: NUMBER OF ATOMS", "%d" % n, "ITEM: BOX BOUNDS xy xz yz pp pp pp",
              "0 1 0", "0 1 0", "0 1 0", "ITEM: ATOMS id type x y z fx fy fz"]
-        # LAMMPS dumps atoms in arbitrary order: reverse it, the id column identifies the atom
-        for i in reversed(range(n)):
+        # LAMMPS dumps atoms in arbitrary order (row_order: file atom of every row; default reversed),
+        # the id column identifies the atom
+        for i in (row_order if row_order is not None else list(reversed(range(n)))):
             L.append("%d %d %18.10f %18.10f %18.10f %20.12f %20.12f %20.12f"
                      % ((i + 1, red.index(syms[i]) + 1) + tuple(pl[i]) + tuple(Fl[i])))
     else:
